@@ -12,9 +12,9 @@ KEYS = LEAVES + DERIVED
 
 def leaf_rule(sig=1):
     return dict(leaf=True, start=[], dynOn="none", dynThen=[], dynElse=[], disc=[], proj=[],
-                base=0, force=False, valid=True, sig=sig)
+                base=0, force=False, valid=True, sig=sig, out=False)
 
-def gen_program(rng, cyclic=False, allow=("follow", "single", "dyn", "disc", "force", "invalid")):
+def gen_program(rng, cyclic=False, allow=("follow", "single", "dyn", "disc", "force", "invalid", "out")):
     prog = {k: leaf_rule() for k in LEAVES}
     for di, me in enumerate(DERIVED):
         earlier = LEAVES + DERIVED[:di]
@@ -55,13 +55,14 @@ def gen_program(rng, cyclic=False, allow=("follow", "single", "dyn", "disc", "fo
         prog[me] = dict(leaf=False, start=start, dynOn=dynOn, dynThen=dynThen, dynElse=dynElse, disc=disc,
                         proj=proj, base=rng.randrange(3),
                         force=("force" in allow and rng.random() < 0.12),
-                        valid=not ("invalid" in allow and rng.random() < 0.12), sig=1)
+                        valid=not ("invalid" in allow and rng.random() < 0.12), sig=1,
+                        out=("out" in allow and rng.random() < 0.3))
     return prog
 
 def rule_line(k, r):
     def reqs(l): return ",".join("%s:%s" % (x["k"], x["kind"]) for x in l)
-    return ("rule %s leaf=%d sig=%d base=%d force=%d valid=%d start=%s dyn=%s then=%s else=%s disc=%s proj=%s" %
-            (k, r["leaf"], r["sig"], r["base"], r["force"], r["valid"], reqs(r["start"]),
+    return ("rule %s leaf=%d sig=%d base=%d force=%d valid=%d out=%d start=%s dyn=%s then=%s else=%s disc=%s proj=%s" %
+            (k, r["leaf"], r["sig"], r["base"], r["force"], r["valid"], r.get("out", False), reqs(r["start"]),
              "" if r["dynOn"] == "none" else r["dynOn"], reqs(r["dynThen"]), reqs(r["dynElse"]),
              ",".join(r["disc"]), ",".join(r["proj"])))
 
@@ -108,7 +109,7 @@ class CaseBuilder:
 def gen_case(rng, cid, dbdir=None, cyclic=False, modes=("sync", "det"), cancel_p=0.25, restart_p=0.15,
              nsteps=(3, 7), db_p=0.5, sigchange_p=0.3, rewire_p=0.3, rewire_cyclic=False, adversarial=False, allow=None, verify=False, repeat_p=0.0):
     prog = gen_program(rng, cyclic=cyclic) if allow is None else gen_program(rng, cyclic=cyclic, allow=allow)
-    ext = {l: rng.randrange(2) for l in LEAVES}
+    ext = {l: rng.randrange(2) for l in LEAVES}; ext.update({k: 0 for k in DERIVED})
     cb = CaseBuilder(cid, prog, ext)
     if adversarial:
         pool = rng.sample(ADVERSARIAL_KEYS, len(KEYS))
@@ -121,7 +122,11 @@ def gen_case(rng, cid, dbdir=None, cyclic=False, modes=("sync", "det"), cancel_p
     for _ in range(n):
         r = rng.random()
         if r < 0.28:
-            l = rng.choice(LEAVES); cb.mutate(l, 1 - cb.ext[l])
+            outs = [k for k in DERIVED if cb.prog[k].get("out")]
+            if outs and rng.random() < 0.3:       # tamper with / delete an output
+                k = rng.choice(outs); cb.mutate(k, rng.choice([v for v in range(3) if v != cb.ext[k]]))
+            else:
+                l = rng.choice(LEAVES); cb.mutate(l, 1 - cb.ext[l])
         elif r < 0.28 + restart_p:
             newprog = None
             r2 = rng.random()
